@@ -327,5 +327,13 @@ def search(ctx):
                 metric=str(rng.choice(METRICS)), cfg=cfg)
         w = rng.random((K, 1)) + 0.1
         w /= w.sum()
-        ctx.run(integration_inline_pa_not_worse, weight=w, spatial=rng.normal(size=(F, K, T)) * 3,
-                spectral=rng.normal(size=(F, K, T)) * 3)
+        spatial, spectral = rng.normal(size=(F, K, T)) * 3, rng.normal(size=(F, K, T)) * 3
+        if T >= 2 and rng.random() < 0.35:
+            # a wide dynamic range between the frames of a bin: some frames lie thousands of nats below the others (an
+            # outlier frame, a pause) and have their own opinion on the class order
+            for f in range(F):
+                t = rng.choice(T, int(rng.integers(1, max(2, T // 2 + 1))), replace=False)
+                level = -10.0 ** rng.uniform(2.9, 4)
+                spatial[f][:, t] = level + rng.normal(size=(K, len(t))) * 30
+            ctx.count('integration-pa-outlier-frames')
+        ctx.run(integration_inline_pa_not_worse, weight=w, spatial=spatial, spectral=spectral)
